@@ -121,6 +121,8 @@ def run(case: dict, ctx) -> dict:
             bom = b"\xff\xfe" if enc == "utf-16-le" else b"\xfe\xff"
             (hd / "DiskDescriptor.xml").write_bytes(bom + t16.encode(enc))
         (hd / fn).write_bytes(b"D" * 4096)
+        # Parallels keeps a backup copy of the descriptor in the bundle; it is harmless and must not stand in for the real one
+        (hd / "DiskDescriptor.xml.Backup").write_text(body, encoding="utf-8")
         want = None
 
         def _hdd():
